@@ -194,6 +194,11 @@ func ScanSnapshot(in io.Reader, prefix io.Writer, opts *Opts) (*Snapshot, []byte
 			}
 		}
 	}
+	if s.state == done && suffix == nil {
+		// The trace ended on a line that is part of it (the race detector's
+		// closing separator): what was read ahead is not part of the trace.
+		suffix = append([]byte{}, r.buffered()...)
+	}
 	if s.Goroutines != nil {
 		if opts.NameArguments {
 			nameArguments(s.Goroutines)
